@@ -119,13 +119,13 @@ def cascade(item, seed, timeout):
     r = None
     if item.get("ground"):
         # quantifier-free assumptions only, no background: keeps ground obligations away from the quantified axioms, where z3 wanders
-        rg = discharge_smt2(item["name"], item["kind"], item["line"], item["ground"], timeout_ms=2000, use_cvc5=False, seed=seed, retries=0, inproc=True)
+        rg = discharge_smt2(item["name"], item["kind"], item["line"], item["ground"], timeout_ms=3000, use_cvc5=False, seed=seed, retries=0, inproc=True)
         if rg.status == "proved":
             rg.backend = "z3 (quantifier-free weakening)"
             r = rg
     for key, label in (("nobg", "z3 (assumptions only, no background axioms)"), ("sliced", "z3 (assumptions connected to the goal)")):
         if r is None and item.get(key):
-            rw = discharge_smt2(item["name"], item["kind"], item["line"], item[key], timeout_ms=5000, use_cvc5=False, seed=seed, retries=0)
+            rw = discharge_smt2(item["name"], item["kind"], item["line"], item[key], timeout_ms=8000, use_cvc5=False, seed=seed, retries=0)
             if rw.status == "proved":
                 rw.backend = label
                 r = rw
@@ -135,7 +135,7 @@ def cascade(item, seed, timeout):
         r = discharge_smt2(item["name"], item["kind"], item["line"], item["smt2"], timeout_ms=timeout, seed=seed, retries=0 if item.get("alt") else 2)
     if r.status == "unknown" and item.get("alt"):
         # the same problem with further instances of its own assumptions (at the literal indexes 0, 1, 2) added
-        for key, to in (("alt_nobg", 5000), ("alt", timeout)):
+        for key, to in (("alt_nobg", 8000), ("alt", timeout)):
             ra = discharge_smt2(item["name"], item["kind"], item["line"], item[key], timeout_ms=to, use_cvc5=False, seed=seed, retries=0)
             if ra.status == "proved":
                 ra.backend = "z3 (with instances of the assumptions at literal indexes)"
@@ -146,7 +146,7 @@ def cascade(item, seed, timeout):
 def discharge_one(item):
     """worker, phase 2: one obligation"""
     tier, seed = _G["tier"], _G["seed"]
-    timeout = 10000 if tier == "quick" else 60000
+    timeout = 12000 if tier == "quick" else 60000
     r = cascade(item, seed, timeout)
     d = r.to_json()
     d["size"] = item["size"]
